@@ -161,6 +161,24 @@ def generate(rng, tier):
         m = n if rng.random() < 0.7 else rng.randint(6, 10)
         cases.append({"cls": "lb_only", "kind": "lb", "AX": _rich(rng, n), "AY": _rich(rng, m), "iso": None,
                       "fmt": rng.choice(["csr", "dense", "list"])})
+    # >= 128 vertices with a small diameter (distance matrix stays int8): relabelled copies, so the curvature search
+    # runs on all of X (len(K) >= 128) and the true distance is 0 by construction.  NumPy >= 2 raised OverflowError
+    # here (`len(K) * diam_X` with an int8 scalar) before fixes/C05_sortkey_overflow.patch
+    for _ in range(4 if tier == "quick" else 30):
+        n = rng.randint(128, 136)
+        kind = rng.choice(["star", "double_star", "k2n", "clique_pendants"])
+        if kind == "star":
+            e = [(0, i) for i in range(1, n)]
+        elif kind == "double_star":
+            e = [(0, 1)] + [(rng.randint(0, 1), i) for i in range(2, n)]
+        elif kind == "k2n":
+            e = [(a, i) for a in (0, 1) for i in range(2, n)]
+        else:
+            e = [(a, b) for a in range(5) for b in range(a + 1, 5)] + [(rng.randrange(5), i) for i in range(5, n)]
+        AX = _relabel(_upper(n, e), _perm(rng, n))
+        p = _perm(rng, n)
+        cases.append({"cls": "wide", "kind": "lb", "AX": AX, "AY": _relabel(AX, p), "iso": p, "fmt": "csr",
+                      "e2e_seed": rng.randrange(2 ** 31)})
     # the greedy assignment test on its own, on distributions larger than 7-vertex graphs produce
     for _ in range(150 if tier == "quick" else 3000):
         maxd = rng.randint(1, 9)
@@ -229,6 +247,8 @@ def shrink_candidates(c):
                 if c[key][k] > 0:
                     d = dict(c); d[key] = list(c[key]); d[key][k] -= 1; yield d
         return
+    if c.get("cls") == "wide":
+        return          # shrinking below 128 vertices leaves the regime, and every step costs seconds
     p = c.get("iso")
     if p is not None and len(c["AX"]) == len(c["AY"]) and len(p) == len(c["AX"]) > 1:
         # keep the pair isomorphic: drop vertex v of X together with its image p[v] in Y
@@ -299,6 +319,10 @@ def impl_run(cases):
         elif np.asarray(DX).tobytes() != bx or np.asarray(DY).tobytes() != by:
             out["leak"] = "find_lb modified its input distance matrices"
         if c.get("kind") == "lb":
+            if "e2e_seed" in c:          # also through the public entry point
+                np.random.seed(c["e2e_seed"])
+                l, u = gh(conv(c["AX"], c["fmt"]), conv(c["AY"], c["fmt"]))
+                out["e2e"] = [[float(l), float(u)]]
             return out
         order = np.array(c["order"], dtype=float)
         # --- run with the harness-supplied RNG, logged
@@ -497,6 +521,11 @@ def predicate(c, o):
         t2 = true_two_mgh(c, budget=150_000)
         if t2 is not None and l > t2:
             return False, "lower: lower bound %r exceeds true mGH %r (find_lb)" % (l / 2.0, t2 / 2.0)
+        for lo, up in o.get("e2e", []):
+            if not (lo >= 0 and up >= 0 and float(2 * lo).is_integer() and float(2 * up).is_integer()):
+                return False, "half-integer: (%r, %r) are not non-negative multiples of 1/2" % (lo, up)
+            if lo > up or (t2 is not None and not (2 * lo <= t2 <= 2 * up)):
+                return False, "bracket: [%r, %r] does not bracket true mGH %r" % (lo, up, None if t2 is None else t2 / 2.0)
         return True, ""
     t2 = true_two_mgh(c)
     runs = [("seed %d" % s, l, u) for s, (l, u) in zip(c["seeds"], o["e2e"])] + [("patched-rng", o["lb2"] / 2.0, o["ub2"] / 2.0)]
@@ -569,6 +598,9 @@ def _terms(c, o):
         zl = lambda l: core.coq_list([str(int(x)) for x in l])
         return "match check_feas %s %s %d with Some b => if Bool.eqb b %s then 0 else 256 | None => 512 end" % (
             zl(c["v"]), zl(c["u"]), c["d"], cbool(o["feasible"]))
+    if c.get("kind") == "lb" and max(len(c["AX"]), len(c["AY"])) > 60:
+        # the list-based model of the curvature search is quartic: only the metrics are compared at this size
+        return "bit (dm_ok %s %s) 1 + bit (dm_ok %s %s) 2" % (cmat(c["AX"]), cmat(o["DX"]), cmat(c["AY"]), cmat(o["DY"]))
     if c.get("kind") == "lb":
         return "bit (dm_ok %s %s) 1 + bit (dm_ok %s %s) 2 + check_lb %s %s %d" % (
             cmat(c["AX"]), cmat(o["DX"]), cmat(c["AY"]), cmat(o["DY"]), cmat(o["DX"]), cmat(o["DY"]), o["lb2"])
